@@ -62,8 +62,8 @@ Theorem C12_fresh cfg r sc name t suffix r' sc' idx :
                 has_var vs2 (v_name v) = false.
 Proof.
   unfold add_var. destruct (populate cfg r (refs t) []) as [[r1 imps]| | | |]; try discriminate.
-  cbn [bind]. destruct (_ && _); [discriminate|].
-  set (vs1 := rename_for_imports (sc_vars sc) (map (imp_qualifier r1) imps)).
+  cbn [bind].
+  set (vs1 := rename_for_imports (sc_vars sc) (var_quals r1 imps)).
   set (n1 := match search_import r1 (var_name name t suffix) with Some _ => _ | None => _ end).
   destruct (has_var vs1 n1 || str_mem n1 (sc_conflicted sc)) eqn:CONF.
   - unfold resolve_var_name_conflict. cbn [sc_vars sc_conflicted].
@@ -141,12 +141,12 @@ Qed.
 Theorem C12_add_var_keeps_distinct cfg r sc name t suffix r' sc' idx :
   add_var cfg r sc name t suffix = Ok (r', sc', idx) ->
   (forall r1 imps, populate cfg r (refs t) [] = Ok (r1, imps) ->
-     NoDup (map v_name (rename_for_imports (sc_vars sc) (map (imp_qualifier r1) imps)))) ->
+     NoDup (map v_name (rename_for_imports (sc_vars sc) (var_quals r1 imps)))) ->
   NoDup (names sc').
 Proof.
   unfold add_var, names. destruct (populate cfg r (refs t) []) as [[r1 imps]| | | |]; try discriminate.
-  cbn [bind]. destruct (_ && _); [discriminate|]. intros E H. specialize (H r1 imps eq_refl).
-  set (vs1 := rename_for_imports (sc_vars sc) (map (imp_qualifier r1) imps)) in *.
+  cbn [bind]. intros E H. specialize (H r1 imps eq_refl).
+  set (vs1 := rename_for_imports (sc_vars sc) (var_quals r1 imps)) in *.
   set (n1 := match search_import r1 (var_name name t suffix) with Some _ => _ | None => _ end) in *.
   destruct (has_var vs1 n1 || str_mem n1 (sc_conflicted sc)) eqn:CONF.
   - destruct (resolve_var_name_conflict (mkScope vs1 (sc_conflicted sc)) n1) as [[n2 sc2]| | | |] eqn:R;
